@@ -63,7 +63,7 @@ func init() {
 		QuickRuns: 240, QuickBudget: 50 * time.Second,
 		ThoroughRuns: 4000, ThoroughBudget: 18 * time.Minute,
 		RunsPerProcess: 60,
-		RunTimeout:     300 * time.Second,
+		RunTimeout:     600 * time.Second,
 		Run:            run,
 	})
 }
@@ -314,6 +314,8 @@ type state struct {
 	// marker searches open every file from the newest down: on logs with many
 	// files only every searchStride-th damaged read is followed by searches
 	searchStride int
+	searchWork   int // estimated file opens spent in searches so far
+	searchCap    int
 }
 
 func run(c *kernel.Ctx) {
@@ -527,17 +529,22 @@ func run(c *kernel.Ctx) {
 	if c.Tier == kernel.Thorough {
 		workCap = 3000000
 	}
+	nFiles := len(lay.names)
 	perRead := len(recs)/2 + 1
 	if big {
 		perRead *= 8
 	}
+	perRead += 6 * nFiles // the reader opens every file on its way
 	if maxReads := workCap / perRead; budget > maxReads {
 		budget = maxReads
 	}
-	nFiles := len(lay.names)
 	st.searchStride = 1
 	if nFiles > 5 {
 		st.searchStride = nFiles / 3
+	}
+	st.searchCap = 150000 // in file opens; a search opens up to F(F+1)/2 files
+	if c.Tier == kernel.Thorough {
+		st.searchCap = 600000
 	}
 	var cuts, flips []int
 	if 2*L+L/8 <= budget {
@@ -624,7 +631,7 @@ func run(c *kernel.Ctx) {
 		c.Fault("truncation")
 		// all markers at the edges of marker records and of files (and now and
 		// then elsewhere); the two markers around the cut otherwise
-		full := (markerEdge[x] || i%97 == 0) && (nFiles <= 8 || nFull < 60)
+		full := (markerEdge[x] || i%97 == 0) && (nFiles <= 8 || nFull < 60) && st.searchWork < st.searchCap/2
 		if full {
 			nFull++
 		}
